@@ -94,6 +94,8 @@ GENERIC_STR = [
     "--", "-.", "-", "-x", "--foo",
     # a literal dollar sign / tilde (API tokens, quoted paths)
     "$HOME", "tok_${HOME}_1", "~user",
+    # words that are the beginning of a parameter name
+    "global", "save", "eule", "plot_mode", "tf_cache_max", "cons", "pygm",
     # look like numbers (a legend location code, an all-digit token): stored
     # as numbers although the parameter's default is a string
     "2", "12345",
